@@ -750,6 +750,20 @@ def linear_calls(fn_or_block, resolve=True):
             if resolve and segs and (len(segs) == 1 or (len(segs) == 2 and segs[0] == "Self")):
                 follow(segs[-1], n["args"], conds, loops, unsafe, iters, depth, cur)
             return
+        if k == "Block":
+            cs = conds
+            for st_ in n.get("stmts", []):
+                rec(st_, cs, loops, unsafe, iters, depth, cur)
+                e_ = strip(stmt_expr(st_) or {}) if st_.get("k") == "ExprStmt" else {}
+                if e_.get("k") == "If" and e_.get("else") is None:
+                    th = stmts_of(e_["then"])
+                    last = strip(stmt_expr(th[-1]) or {}) if th else {}
+                    is_err = last.get("k") == "Return" and last.get("e") is not None and t(last["e"]).startswith("Err(")
+                    if last.get("k") in ("Return", "Continue", "Break") and not is_err:
+                        # what follows only runs when the early exit was not taken (an error return is not
+                        # a way of *succeeding* without having done what follows)
+                        cs = cs + ["!(" + t(e_["cond"]) + ")"]
+            return
         for v in children(n):
             rec(v, conds, loops, unsafe, iters, depth, cur)
 
@@ -1268,7 +1282,7 @@ _IMPURE_METHODS = {
 }
 
 
-def _is_simple_init(e, allow_self=False, mut_roots=None):
+def _is_simple_init(e, allow_self=False, mut_roots=None, pure_calls=()):
     """an initialiser that can be read at its use sites instead: it reads only locals (no `self`), has no
     indexing through a mutable root, no macro, `?`, closure or block; method calls are either from the
     fixed pure list or (when `mut_roots` is known) any non-mutating-looking method on an immutable root"""
@@ -1287,7 +1301,7 @@ def _is_simple_init(e, allow_self=False, mut_roots=None):
         if k == "Call":
             # only constructor-like calls are values: `Some(x)`, `Interval::new(a, b)`, `T::from(x)`
             segs = path_segs(n["func"]) or []
-            if not segs or not (segs[-1][:1].isupper() or segs[-1] in ("new", "from", "default", "identity", "zeros", "splat", "from_le_bytes", "from_bits", "try_from")):
+            if not segs or not (segs[-1][:1].isupper() or segs[-1] in pure_calls or segs[-1] in ("new", "from", "default", "identity", "zeros", "splat", "from_le_bytes", "from_bits", "try_from")):
                 return False
         if k == "MethodCall" and n["method"] not in _SIMPLE_METHODS:
             if mut_roots is None or n["method"] in _IMPURE_METHODS or n["method"].startswith(("set_", "push_", "insert_", "remove_", "take_", "reset_", "update_", "add_")):
@@ -1350,7 +1364,7 @@ def _writes_name(node, names):
     return False
 
 
-def inline_simple_lets(stmts, multi=False, mut_names=None, ro_self=False):
+def inline_simple_lets(stmts, multi=False, mut_names=None, ro_self=False, pure_calls=()):
     """statement list with every single-use simple `let name = init;` folded into its use
     (same block, the use not under a loop or closure)"""
     stmts = list(stmts)
@@ -1365,7 +1379,7 @@ def inline_simple_lets(stmts, multi=False, mut_names=None, ro_self=False):
                 continue
             name = p["name"]
             init = s.get("init")
-            if not _is_simple_init(init, mut_roots=mut_names, allow_self=ro_self):
+            if not _is_simple_init(init, mut_roots=mut_names, allow_self=ro_self, pure_calls=pure_calls):
                 continue
             if any(x.get("k") == "Path" and ident(x) == name for x in walk(init)):
                 continue  # `let tape = tape.data();` shadows what it reads: leave it
